@@ -524,6 +524,9 @@ class ConfigParser(object):
     basic_type_tokens = [tokenize.NAME, tokenize.NUMBER, tokenize.STRING]
     continue_parsing = self._current_token.type in basic_type_tokens
     if not continue_parsing:
+      if token_value:
+        # A leading '-' was consumed: it can only be followed by a number.
+        self._raise_syntax_error('Unable to parse value.')
       return False, None
 
     while continue_parsing:
